@@ -536,10 +536,30 @@ const FENCE: &str = "fence18b";
 
 struct Recorder {
     log: Arc<Mutex<Vec<OwnedTerm>>>,
+    /// full-mailbox scenarios: while `gate.0` is set the handler does not start (the process takes nothing more);
+    /// `gate.1`: it is waiting there
+    gate: Arc<(std::sync::atomic::AtomicBool, std::sync::atomic::AtomicBool)>,
+}
+
+const FILL: &str = "fill18b";
+
+fn is_fill(t: &OwnedTerm) -> Option<i64> {
+    if let OwnedTerm::Tuple(v) = t
+        && v.len() == 2
+        && v[0] == atom(FILL)
+        && let OwnedTerm::Integer(k) = &v[1]
+    {
+        return Some(*k);
+    }
+    None
 }
 
 impl Process for Recorder {
     async fn handle_message(&mut self, msg: Message) -> edp_node::Result<()> {
+        while self.gate.0.load(std::sync::atomic::Ordering::SeqCst) {
+            self.gate.1.store(true, std::sync::atomic::Ordering::SeqCst);
+            tokio::time::sleep(std::time::Duration::from_millis(1)).await;
+        }
         let t = match msg {
             Message::Regular { from: None, body } => body,
             other => atom(&format!("unexpected-{:?}", other).replace(' ', "")),
@@ -568,6 +588,34 @@ struct NodeWorld {
     w: World,
     la: Arc<Mutex<Vec<OwnedTerm>>>,
     lb: Arc<Mutex<Vec<OwnedTerm>>>,
+    /// the gate of caller `a`
+    ga: Arc<(std::sync::atomic::AtomicBool, std::sync::atomic::AtomicBool)>,
+}
+
+/// caller `a` is held at its gate and its mailbox is filled to capacity (through the handle's sender, `try_send`: the harness
+/// never waits); returns the number of filler messages (capacity + the one the process task holds)
+async fn fill_a(nw: &NodeWorld) -> Option<usize> {
+    use std::sync::atomic::Ordering::SeqCst;
+    nw.ga.0.store(true, SeqCst);
+    let h = nw.node.registry().get(&nw.w.a).await?;
+    let body = |k: i64| Message::Regular { from: None, body: tup(vec![atom(FILL), int(k)]) };
+    h.mailbox_sender.try_send(body(0)).ok()?;
+    let ga = nw.ga.clone();
+    if !wait_until(move || ga.1.load(SeqCst)).await {
+        return None;
+    }
+    let mut n = 1usize;
+    while n < 100_000 && h.mailbox_sender.try_send(body(n as i64)).is_ok() {
+        n += 1;
+    }
+    Some(n)
+}
+
+/// the filler messages were handled by `a` exactly once, in order, before everything else
+fn fills_in_order(nw: &NodeWorld, n: usize) -> bool {
+    let l = nw.la.lock().unwrap();
+    let ks: Vec<i64> = l.iter().filter_map(is_fill).collect();
+    ks == (0..n as i64).collect::<Vec<i64>>() && l.iter().take(n).all(|t| is_fill(t).is_some())
 }
 
 async fn node_world() -> Option<NodeWorld> {
@@ -577,8 +625,10 @@ async fn node_world() -> Option<NodeWorld> {
     let node = Arc::new(node);
     let la = Arc::new(Mutex::new(vec![]));
     let lb = Arc::new(Mutex::new(vec![]));
-    let a = node.spawn(Recorder { log: la.clone() }).await.ok()?;
-    let b = node.spawn(Recorder { log: lb.clone() }).await.ok()?;
+    let ga = Arc::new((std::sync::atomic::AtomicBool::new(false), std::sync::atomic::AtomicBool::new(false)));
+    let gb = Arc::new((std::sync::atomic::AtomicBool::new(false), std::sync::atomic::AtomicBool::new(false)));
+    let a = node.spawn(Recorder { log: la.clone(), gate: ga.clone() }).await.ok()?;
+    let b = node.spawn(Recorder { log: lb.clone(), gate: gb }).await.ok()?;
     let name = node.name().clone();
     let creation = node.creation();
     let closed = ExternalPid::new(name.clone(), 900_001, 0, creation);
@@ -588,7 +638,7 @@ async fn node_world() -> Option<NodeWorld> {
     node.registry().insert(closed.clone(), ProcessHandle::new(closed.clone(), dead.sender())).await;
     drop(dead);
     let w = World { node: name, a, b, closed, absent, remote: ExternalPid::new(Atom::new("other@host"), 1, 0, 1) };
-    Some(NodeWorld { node, w, la, lb })
+    Some(NodeWorld { node, w, la, lb, ga })
 }
 
 /// both callers have handled everything that was in their mailboxes
@@ -604,29 +654,48 @@ fn proj_text(nw: &NodeWorld) -> (String, Vec<(ExternalPid, OwnedTerm)>) {
     let mut parts = vec![];
     let mut got = vec![];
     for (p, l) in [(&nw.w.a, &nw.la), (&nw.w.b, &nw.lb)] {
-        let items: Vec<OwnedTerm> = l.lock().unwrap().iter().filter(|t| **t != atom(FENCE)).cloned().collect();
+        let items: Vec<OwnedTerm> = l.lock().unwrap().iter().filter(|t| **t != atom(FENCE) && is_fill(t).is_none()).cloned().collect();
         parts.push(format!("{}={}", pid_text(p), join_or("&", &items.iter().map(canon_body).collect::<Vec<_>>())));
         got.extend(items.into_iter().map(|t| (p.clone(), t)));
     }
     (parts.join(";"), got)
 }
 
-async fn gen_server_node(ctx: &mut Ctx) {
-    let cases = ctx.n(120, 1500);
+/// `full`: caller `a` is a whole mailbox behind (held at a gate, mailbox filled to capacity) while the server handles the
+/// messages — the first of which is a call from `a` that is answered —, then the gate opens
+async fn gen_server_node(ctx: &mut Ctx, full: bool) {
+    let cases = if full { ctx.n(3, 30) } else { ctx.n(120, 1500) };
     for i in 0..cases {
         let Some(nw) = node_world().await else {
             ctx.fail("c18b-node-start-failed", &format!("gs node {}", i));
             continue;
         };
         let w = nw.w.clone();
+        let fills = if full {
+            match fill_a(&nw).await {
+                Some(n) => n,
+                None => {
+                    ctx.fail("c18b-full-setup", &format!("gs node {}", i));
+                    continue;
+                }
+            }
+        } else {
+            0
+        };
         let env = Env { a: true, b: true, closed: true };
         let n = ctx.rng.range(1, 10) as usize;
         let mut refs = 0u32;
         let steps: Vec<GsStep> = (0..n)
             .map(|j| {
                 // the first case is the directed one: the closed caller first
-                let body = if i == 0 && j == 0 { call_of(&w, &w.closed, 77, atom("get")) } else { gen_body(&mut ctx.rng, false, &w, &mut refs) };
-                let ans = if i == 0 { GsAns::Reply(int(j as i64)) } else { GsAns::pick(&mut ctx.rng) };
+                let body = if full && j == 0 {
+                    call_of(&w, &w.a, 78, atom("get"))
+                } else if i == 0 && j == 0 {
+                    call_of(&w, &w.closed, 77, atom("get"))
+                } else {
+                    gen_body(&mut ctx.rng, false, &w, &mut refs)
+                };
+                let ans = if i == 0 || (full && j == 0) { GsAns::Reply(int(j as i64)) } else { GsAns::pick(&mut ctx.rng) };
                 GsStep { msg: Msg::Regular(None, body), ans, env }
             })
             .collect();
@@ -640,6 +709,11 @@ async fn gen_server_node(ctx: &mut Ctx) {
             if let Msg::Regular(_, body) = &s.msg {
                 let _ = nw.node.send(&server, body.clone()).await;
             }
+        }
+        if full {
+            // the server is inside its first reply, waiting for room in the mailbox of `a`
+            tokio::time::sleep(std::time::Duration::from_millis(40)).await;
+            nw.ga.0.store(false, std::sync::atomic::Ordering::SeqCst);
         }
         // every message was handled, or the server is gone
         let reg = nw.node.registry();
@@ -690,6 +764,13 @@ async fn gen_server_node(ctx: &mut Ctx) {
         let alive = if gone { "dead" } else { "alive" };
         ctx.tie("gsnode", &format!("c18bgsn {}", req), &format!("{}|{}|{}", join_or("&", &cbs), proj, alive));
         ctx.prop("gen", &format!("c18bgsspec {} {} {}", alive, got_text(&got), req), "ok");
+        if full {
+            if !fills_in_order(&nw, fills) {
+                ctx.fail("c18b-full-mailbox-lost-or-reordered", &format!("gs node: {} fillers, caller saw {} messages; steps={}", fills, nw.la.lock().unwrap().len(), req));
+            }
+            ctx.count("gs_node_full_caller");
+            ctx.add("full_mailbox_fillers", fills as u64);
+        }
         ctx.count(if gone { "gs_node_dead" } else { "gs_node_alive" });
         ctx.add("gs_node_replies", got.len() as u64);
     }
@@ -1027,15 +1108,35 @@ impl Process for ManagerProcess {
     }
 }
 
-async fn gen_event_node(ctx: &mut Ctx) {
-    let cases = ctx.n(100, 1200);
+/// `full`: as for the gen_server — the first message is a which_handlers from caller `a`, whose mailbox is full
+async fn gen_event_node(ctx: &mut Ctx, full: bool) {
+    let cases = if full { ctx.n(3, 30) } else { ctx.n(100, 1200) };
     for i in 0..cases {
         let Some(nw) = node_world().await else {
             ctx.fail("c18b-node-start-failed", &format!("ge node {}", i));
             continue;
         };
         let w = nw.w.clone();
+        let fills = if full {
+            match fill_a(&nw).await {
+                Some(n) => n,
+                None => {
+                    ctx.fail("c18b-full-setup", &format!("ge node {}", i));
+                    continue;
+                }
+            }
+        } else {
+            0
+        };
         let (_, mut ops) = gen_ge_ops(&mut ctx.rng, &w, false);
+        if full {
+            let at = ops.iter().position(|o| matches!(o, GeOp::Msg(..))).unwrap_or(ops.len());
+            let which = tup(vec![atom("$gen_which_handlers"), tup(vec![pidt(&w.a), OwnedTerm::Reference(ExternalReference::new(w.node.clone(), 1, vec![9998]))])]);
+            ops.insert(at, GeOp::Msg(Msg::Regular(None, which), Env { a: true, b: true, closed: true }));
+            let call = tup(vec![atom("$gen_call"), tup(vec![pidt(&w.a), OwnedTerm::Reference(ExternalReference::new(w.node.clone(), 1, vec![9997]))]), hid(0), atom("get")]);
+            ops.insert(at + 1, GeOp::Msg(Msg::Regular(None, call), Env { a: true, b: true, closed: true }));
+            ops.insert(at + 2, GeOp::Msg(Msg::Regular(Some(w.a.clone()), tup(vec![atom("$gen_sync_notify"), atom("ev")])), Env { a: true, b: true, closed: true }));
+        }
         let env = Env { a: true, b: true, closed: true };
         for o in ops.iter_mut() {
             if let GeOp::Msg(m, e) = o {
@@ -1077,6 +1178,10 @@ async fn gen_event_node(ctx: &mut Ctx) {
                 }
             }
         }
+        if full {
+            tokio::time::sleep(std::time::Duration::from_millis(40)).await;
+            nw.ga.0.store(false, std::sync::atomic::Ordering::SeqCst);
+        }
         let h2 = handled.clone();
         if !wait_until(move || *h2.lock().unwrap() >= total).await {
             ctx.fail("c18b-event-manager-ended", &format!("ge node {}: handled {} of {} messages", i, *handled.lock().unwrap(), total));
@@ -1095,6 +1200,13 @@ async fn gen_event_node(ctx: &mut Ctx) {
         }
         ctx.tie("genode", &format!("c18bgen {} {}", oracle_text(&g.oracle), req), &format!("{}|{}", per_uid_text(&g.log), proj));
         ctx.prop("gen", &format!("c18bgespec {} {}", got_text(&got), req), "ok");
+        if full {
+            if !fills_in_order(&nw, fills) {
+                ctx.fail("c18b-full-mailbox-lost-or-reordered", &format!("ge node: {} fillers, caller saw {} messages; ops={}", fills, nw.la.lock().unwrap().len(), req));
+            }
+            ctx.count("ge_node_full_caller");
+            ctx.add("full_mailbox_fillers", fills as u64);
+        }
         ctx.count("ge_node_cases");
         ctx.add("ge_node_replies", got.len() as u64);
     }
@@ -1108,7 +1220,9 @@ pub fn run(ctx: &mut Ctx) {
         let _epmd = FakeEpmd::start().await;
         gen_server_direct(ctx).await;
         gen_event_direct(ctx).await;
-        gen_server_node(ctx).await;
-        gen_event_node(ctx).await;
+        gen_server_node(ctx, false).await;
+        gen_event_node(ctx, false).await;
+        gen_server_node(ctx, true).await;
+        gen_event_node(ctx, true).await;
     });
 }
